@@ -98,7 +98,10 @@ func extractFromPath(path *Path, data []byte, optFuncs ...DecodeOptionFunc) ([][
 	ctx.Buf = src
 	ctx.Option.Flags = 0
 	ctx.Option.Flags |= decoder.PathOption
-	ctx.Option.Path = path.path
+	// evaluation moves a cursor stored in the Path: work on a copy so that a
+	// failed or concurrent evaluation cannot leave the caller's Path moved
+	pathCopy := *path.path
+	ctx.Option.Path = &pathCopy
 	for _, optFunc := range optFuncs {
 		optFunc(ctx.Option)
 	}
